@@ -347,6 +347,22 @@ fn zst_grid(cx: &mut Cx) {
     grid!([G1, G2, G4, G8, G16, G32, G64, N1, N2, N4, N8, N16, N32, N64], [1, 2, 4, 8, 16, 32, 64, 128, 4096]);
 }
 
+fn zkeep_grid(cx: &mut Cx) {
+    for holder in zst::HOLDERS {
+        for align in [1usize, 4, 8, 16, 64] {
+            for m in [8usize, 64] {
+                for sched in ["full", "inc"] {
+                    cx.run(format!("zkeep {holder} {align} {m} {sched}"), |out| {
+                        if !zst::zkeep_case(holder, align, m, sched == "inc", out) {
+                            out.answer = Some("not-instantiated".into());
+                        }
+                    });
+                }
+            }
+        }
+    }
+}
+
 fn alias_grid(cx: &mut Cx) {
     use alias::*;
     let chains = grid_chains();
@@ -406,6 +422,16 @@ fn run_query(cx: &mut Cx, q: &str) {
                 let (t1, t2) = (t1.to_string(), t2.to_string());
                 cx.run(alias::alias_query(m, &t1, &t2, rel, &c1, &c2), |out| {
                     if !alias::alias_case(m, &t1, &t2, rel, &c1, &c2, out) {
+                        out.answer = Some("not-instantiated".into());
+                    }
+                });
+            }
+        }
+        ["zkeep", holder, align, m, sched] => {
+            if let (Ok(align), Ok(m)) = (align.parse::<usize>(), m.parse::<usize>()) {
+                let (holder, inc) = (holder.to_string(), *sched == "inc");
+                cx.run(format!("zkeep {holder} {align} {m} {sched}"), |out| {
+                    if !zst::zkeep_case(&holder, align, m, inc, out) {
                         out.answer = Some("not-instantiated".into());
                     }
                 });
@@ -502,6 +528,7 @@ fn main() {
         }
     } else {
         zst_grid(&mut cx);
+        zkeep_grid(&mut cx);
         alias_grid(&mut cx);
         let main_targets = [Target::Sized, Target::Dyn, Target::Array, Target::Slice(3), Target::Str(5)];
         for t in main_targets {
